@@ -109,7 +109,7 @@ def make_recorder(indexing):
     return RecIndexer
 
 
-def simulate(rng, unitcell_mod, cellname, ngrains, noise=0.0, nspurious=0):
+def simulate(rng, unitcell_mod, cellname, ngrains, noise=0.0, nspurious=0, dropout=False):
     cell, cen, dsmax = CELLS[cellname]
     uc = unitcell_mod.unitcell(cell, cen)
     hkls = np.array([h for (_, h) in uc.gethkls(dsmax)], float)
@@ -131,6 +131,10 @@ def simulate(rng, unitcell_mod, cellname, ngrains, noise=0.0, nspurious=0):
             if ok:
                 break
         ubis.append(ubi)
+        if dropout:                      # grain g loses 3*g + 1 of its reflections: all grains have different counts
+            keepm = np.ones(len(gg), bool)
+            keepm[rng.choice(len(gg), size=3 * g + 1, replace=False)] = False
+            gg = gg[keepm]
         gv.append(gg + rng.normal(size=gg.shape) * noise)
         owner += [g] * len(gg)
     gv = np.concatenate(gv)
@@ -150,22 +154,32 @@ def same_lattice(ubi1, ubi2, tol=0.05):
     return bool(np.abs(M - Mi).max() < tol and abs(abs(np.linalg.det(Mi)) - 1) < 1e-6)
 
 
-def run_case(chk, indexing, unitcell_mod, RecIndexer, rng, cellname, ngrains, noise, nspur, cid, tier, pars=None):
-    uc, ubis, gv, owner, nper = simulate(rng, unitcell_mod, cellname, ngrains, noise, nspur)
+def run_case(chk, indexing, unitcell_mod, RecIndexer, rng, cellname, ngrains, noise, nspur, cid, tier, pars=None, passes=1,
+             boundary=False):
+    """passes = 2: a second score_all_pairs on the same indexer (the strict-then-loose strategy of indexing.index): grains
+    found in the first pass must not be found again.  boundary: grains with different peak counts and minpks set to
+    exactly the count of the poorest grain: that grain indexes minpks peaks, which is NOT more than minpks."""
+    uc, ubis, gv, owner, nper = simulate(rng, unitcell_mod, cellname, ngrains, noise, nspur, dropout=boundary)
     p = dict(cosine_tol=0.002 if noise == 0 else 0.01, hkl_tol=0.02 if noise == 0 else 0.05, ds_tol=0.004 if noise == 0 else 0.01,
              minpks=max(6, int(0.4 * nper)), uniqueness=0.5, max_grains=[100, 100, 2][int(rng.integers(0, 3))] if noise else 100)
     if pars:
         p.update(pars)
+    nmin_grain = -1
+    if boundary:
+        counts = [int((owner == g).sum()) for g in range(ngrains)]
+        nmin_grain = int(np.argmin(counts))
+        p["minpks"] = counts[nmin_grain]
     with contextlib.redirect_stdout(io.StringIO()), contextlib.redirect_stderr(io.StringIO()):
         ind = RecIndexer(unitcell=uc, gv=gv, wavelength=0.3, **p)
         ind.rec_init()
         ga0 = ind.ga.copy()
         err = None
         try:
-            ind.score_all_pairs()
+            for _ in range(passes):
+                ind.score_all_pairs()
         except Exception as e:                       # noqa
             err = repr(e)
-    meta = {"cell": cellname, "ngrains": ngrains, "noise": noise, "nspurious": nspur, "pars": p, "seed": common.seed(), "case": cid}
+    meta = {"passes": passes, "boundary": bool(boundary), "cell": cellname, "ngrains": ngrains, "noise": noise, "nspurious": nspur, "pars": p, "seed": common.seed(), "case": cid}
     if err:
         chk.violation("indexer raised %s" % err, meta)
         return None, meta
@@ -196,10 +210,15 @@ def run_case(chk, indexing, unitcell_mod, RecIndexer, rng, cellname, ngrains, no
     if noise == 0 and nspur == 0 and p["max_grains"] >= ngrains:
         for g, t in enumerate(ubis):
             hits = [k for k, u in enumerate(ind.ubis) if same_lattice(u, t)]
+            if g == nmin_grain:
+                if len(hits) != 0:
+                    chk.violation("a grain with exactly minpks (= %d) peaks was reported: not MORE than the requested minimum" % p["minpks"],
+                                  dict(meta, true_ubi=t.tolist()))
+                continue
             if len(hits) != 1:
                 chk.violation("ideal data: generating grain %d of %d (%s) reported %d times" % (g, ngrains, cellname, len(hits)),
                               dict(meta, true_ubi=t.tolist(), reported=[u.tolist() for u in ind.ubis]))
-        if len(ind.ubis) != ngrains:
+        if len(ind.ubis) != ngrains - (1 if boundary else 0):
             chk.violation("ideal data: %d grains reported for %d generating grains (%s)" % (len(ind.ubis), ngrains, cellname), meta)
     meta["noise_vs_tol"] = float(noise * max(uc.lattice_parameters[:3]) / p["hkl_tol"])
     meta["reported"] = len(ind.ubis)
@@ -262,22 +281,27 @@ def run(tier, replay=None):
             plan.append((nm, int(rng.integers(2, 5)), 0.0, 0))
             plan.append((nm, int(rng.integers(2, 4)), [0.002, 0.004][int(rng.integers(0, 2))], int(rng.integers(0, 60))))
         plan += [("cubicF", 6, 0.0, 0), ("monoclinic", 2, 0.0, 25)]
+        plan += [("cubicF", 3, 0.0, 0, 2, False), ("hexagonal", 2, 0.0, 0, 2, False), ("orthorhombic", 2, 0.002, 20, 2, False),
+                 ("cubicI", 4, 0.0, 0, 1, True), ("tetragonal", 3, 0.0, 0, 1, True), ("hexagonal", 3, 0.0, 0, 2, True)]
     else:
         for nm in names:
             for ng in (1, 2, 3, 5, 8):
                 plan.append((nm, ng, 0.0, 0))
         for nm in names:
             plan += [(nm, 3, 0.002, 40), (nm, 2, 0.004, 100), (nm, 4, 0.0, 60)]
-    for k, (nm, ng, noise, nsp) in enumerate(plan):
+            plan += [(nm, 3, 0.0, 0, 2, False), (nm, 2, 0.002, 30, 2, False), (nm, 4, 0.0, 0, 1, True), (nm, 3, 0.0, 0, 2, True)]
+    for k, pl in enumerate(plan):
+        nm, ng, noise, nsp = pl[:4]
+        passes, boundary = (pl[4], pl[5]) if len(pl) > 4 else (1, False)
         cid = "i%d" % k
         pars = None
         if tier == "thorough" and k % 5 == 4:
             pars = {"uniqueness": 0.2, "hkl_tol": 0.03}
-        rec, meta = run_case(chk, indexing, unitcell_mod, RecIndexer, rng, nm, ng, noise, nsp, cid, tier, pars)
+        rec, meta = run_case(chk, indexing, unitcell_mod, RecIndexer, rng, nm, ng, noise, nsp, cid, tier, pars, passes=passes, boundary=boundary)
         metas[cid] = meta
         if rec is not None:
             recs.append(rec)
-            chk.case((nm, ng, noise, nsp, k), nontrivial=meta.get("reported", 0) > 0)
+            chk.case((nm, ng, noise, nsp, k, passes, boundary), nontrivial=meta.get("reported", 0) > 0)
     verdicts = validate(chk, recs, "runs")
     for r in recs:
         v = verdicts[r["id"]]
